@@ -113,6 +113,21 @@ def showEnvs (es : List Env) : String :=
     | .data r => s!"data{r.length}" | .errId _ => "errId" | .errRcode _ => "errRcode"
     | .errSoa _ => "errSoa" | .errRead => "errRead")
 
+def parseLabels (s : String) : List Bytes :=
+  if s == "." then [] else (s.splitOn ",").filterMap unhex
+
+/-- `canon typeCovered alg labels origTtl exp inc keytag signerLabels rec*`, rec = `ownerLabels:typ:cls:rdata` -/
+def canonOp (args : List String) : String :=
+  match args with
+  | tc :: alg :: lab :: ot :: ex :: inc :: kt :: signer :: recs =>
+    let n := fun (s : String) => s.toNat?.getD 0
+    let sf : SigFields := ⟨n tc, n alg, n lab, n ot, n ex, n inc, n kt, parseLabels signer⟩
+    let rs : List CRec := recs.filterMap fun r => match r.splitOn ":" with
+      | [o, t, c, rd] => (unhex rd).map fun rd => ⟨parseLabels o, n t, n c, 0, rd⟩
+      | _ => none
+    hex (signedData sf rs)
+  | _ => "bad-op"
+
 /-- one operation: op name and arguments → one canonical output line -/
 def runOp (op : String) (args : List String) : String :=
   match op, args with
@@ -254,6 +269,7 @@ def runOp (op : String) (args : List String) : String :=
     | _, _, _, _, _ => "bad-op"
   | "tsig.time", [now, ts, fudge] => match now.toNat?, ts.toNat?, fudge.toNat? with
     | some now, some ts, some fudge => showB (tsigTimeOk now ts fudge) | _, _, _ => "bad-op"
+  | "canon", args => canonOp args
   | "lab.count", [t] => match unhex t with
     | some s => toString (countLabel s) | _ => "bad-op"
   | "lab.split", [t] => match unhex t with
